@@ -163,6 +163,7 @@ def reference(spec):
 
 class C19(Property):
     id = "C19"
+    anchors = ('finam.schedule:Composition._validate_composition', 'finam.schedule:_check_dead_links', 'finam.schedule:_check_branching', 'finam.schedule:_check_missing_components', 'finam.schedule:_check_input_connected')
     technique = "reference predicate over generated link topologies vs exception class of connect(); recorder counts exchange events before the error; link-list multiset comparison after success"
     rule = (
         "one or two producers (push / pull-type / static outputs) and 1-3 consumers (pull / push-type / static inputs), adapter trees of depth "
